@@ -108,7 +108,10 @@ def program(draw, tier):
             if kind in ("acc", "timer"):
                 node = {"id": f"n{i}", "op": "snode", "kind": kind, "ins": [a], "bias": draw(st.integers(1, 5)), "coef": [draw(st.integers(1, 3))]}
             else:
-                node = {"id": f"n{i}", "op": "snode", "kind": kind, "ins": [a, draw(st.sampled_from(int_ports))], "bias": draw(st.integers(0, 4)),
+                b_ = draw(st.sampled_from(int_ports))
+                if kind in ("sum2", "sum2_ub") and draw(st.booleans()):
+                    b_ = {"r": b_, "passive": True}      # a WIRING-TIME passive tag on an input of a real static node
+                node = {"id": f"n{i}", "op": "snode", "kind": kind, "ins": [a, b_], "bias": draw(st.integers(0, 4)),
                         "coef": [draw(st.integers(1, 3)), draw(st.integers(1, 3))]}
         stmts.append(node)
         if not sink:
